@@ -5,7 +5,12 @@
 EXTENDS Width, Sequences, FiniteSets, Json, IOUtils
 Rec == ndJsonDeserialize(IOEnv.TRACE)
 VARIABLES l, ndev
-Report(inst, S) == \A d \in S : PrintT(<<"DEV", "C20", inst, l, d[1], d[2]>>)
+Prop == IF "PROP" \in DOMAIN IOEnv THEN IOEnv.PROP ELSE "C20"
+Report(inst, S) == \A d \in S : PrintT(<<"DEV", Prop, inst, l, d[1], d[2]>>)
+\* as C10 sees the same builds: the grammar OBJECT of a narrow build is a faithful image of the source
+\* (sizes as the source defines them, dense numbering, every index in range, no query fails)
+C10Codes == {"reported sizes differ from u32 (wrapped?)", "reported sizes differ from what the source defines",
+             "grammar observation differs from u32", "undocumented panic instead of a clean refusal"}
 IfDev(c, code, detail) == IF c THEN {} ELSE { <<code, detail>> }
 
 \* the counts of this instance as the Width model wants them (source-level counts come from the
@@ -44,7 +49,8 @@ Devs(e) == OneWidth(e, e.w8, 8) \cup OneWidth(e, e.w16, 16)
 
 Init == l = 1 /\ ndev = 0
 Next == /\ l <= Len(Rec) /\ l' = l + 1
-        /\ LET e == Rec[l]  ds == Devs(e) IN Report(e.id, ds) /\ ndev' = ndev + Cardinality(ds)
+        /\ LET e == Rec[l]  ds == IF Prop = "C10" THEN {d \in Devs(e) : d[1] \in C10Codes} ELSE Devs(e)
+           IN Report(e.id, ds) /\ ndev' = ndev + Cardinality(ds)
 Spec == Init /\ [][Next]_<<l, ndev>>
 Consumed == (l = Len(Rec) + 1) => PrintT(<<"DONE", Len(Rec), ndev>>)
 =============================================================================
